@@ -13,3 +13,4 @@ python3 resolve_union.py
 python3 gen_root.py
 python3 gen_manifest.py
 git diff --name-only --diff-filter=U
+test -z "$(git diff --name-only --diff-filter=U)"
